@@ -216,7 +216,16 @@ static void map_history(Src& s) {
             std::vector<uint64_t> ids = d;
             if (!dense) ids.insert(ids.end(), sp.begin(), sp.end());
             apply_order(s, ids, order);
+            auto* flex = type == "flex_mem" ? dynamic_cast<osmium::index::map::FlexMem<osmium::unsigned_object_id_type, osmium::Location>*>(m.get()) : nullptr;
             for (uint64_t id : ids) {
+                // A FlexMem that has switched to its dense representation is a dense index: like the other dense types it needs memory in
+                // proportion to the largest id (24 bytes per 65536 ids), so an id like 2^63 ends in std::bad_alloc / std::length_error --
+                // a reported resource error, and under ASan an abort inside operator new. Ids beyond 2^40 are not given to a dense FlexMem
+                // (found by the thorough tier: a block of 2^20 consecutive ids made the map switch, then 2^63 arrived).
+                if (flex && flex->is_dense() && id >= (1ULL << 40)) {
+                    vp::count("huge_id_not_given_to_dense_flex_mem");
+                    continue;
+                }
                 osmium::Location v = value_for(id, salt);
                 m->set(id, v);
                 model.m[id] = v;
